@@ -382,7 +382,7 @@ func genAccount(t *rapid.T, prop string, kind string) Account {
 	badW := 0
 	if prop == "C13" {
 		badW = 2
-	} else if prop == "C03" || prop == "C04" || prop == "C06" {
+	} else if prop == "C03" || prop == "C04" || prop == "C06" || prop == "C02" {
 		badW = 1
 	}
 	if weighted(t, "badStore?", 14, badW) == 1 {
